@@ -1,57 +1,81 @@
 #!/bin/bash
-# usage: verify_seed.sh <out-dir> <name>
-#   <out-dir> contains patch.diff, a demo *_test.go file and meta.json (as produced by a mutation agent)
-# 1. confirms in a scratch worktree: demo passes on the clean tree, original suite passes with the
-#    patch, demo fails with the patch;  2. applies the patch to /repo, runs every check (quick),
-#    reverts /repo;  3. prints which checks raised a VIOLATION.
+# usage: verify_seed.sh <src-dir> <name> [--keep <dest>]
+#   <src-dir> contains patch.diff, a demo *_test.go file and meta.json (as produced by a mutation agent)
+# 1. confirms in a scratch worktree of /repo (outside /repo and /verif): the demo passes on the clean
+#    tree, the module builds (also js/wasm) and the original suite passes with the patch, the demo
+#    fails with the patch;
+# 2. runs every check (quick) against the patched worktree (tcellvet -repo <worktree>; the checker
+#    analyses whatever tree it is pointed at, /repo itself is never modified);
+# 3. prints which checks raised a VIOLATION; with --keep, copies patch/demo/meta (+ what was run)
+#    to <dest>.
+# The scratch worktree and its build output are removed on exit.
 set -u
-src="$1"; name="$2"
-export GOPROXY=off GOSUMDB=off GOTOOLCHAIN=local GOFLAGS=-mod=mod
+src="$1"; name="$2"; keep=""
+[ "${3:-}" = "--keep" ] && keep="$4"
+export GOPROXY=off GOSUMDB=off GOTOOLCHAIN=local GOFLAGS=-mod=mod GOWORK=off
 wt=$(mktemp -d /tmp/seedverify.XXXXXX)
 rmdir "$wt"
 git -C /repo worktree add -q --detach "$wt" HEAD || exit 2
-cleanup() { git -C /repo worktree remove --force "$wt" >/dev/null 2>&1; rm -rf "$wt"; }
+tmpf=$(mktemp /tmp/sv.XXXXXX)
+cleanup() { git -C /repo worktree remove --force "$wt" >/dev/null 2>&1; rm -rf "$wt" "$tmpf".*  "$tmpf"; }
 trap cleanup EXIT
 demo=$(ls "$src"/*_test.go 2>/dev/null | head -1)
 [ -z "$demo" ] && { echo "RESULT $name no-demo"; exit 2; }
 democmd=$(python3 -c "import json,sys;print(json.load(open('$src/meta.json')).get('demo_cmd',''))")
-# where does the demo live? take the directory from the package clause / meta files
-pkgdir=$(python3 - "$src" <<'PY'
+pkgdir=$(python3 - "$src" "$demo" <<'PY'
 import json,sys,re,os
 m=json.load(open(sys.argv[1]+'/meta.json'))
 cmd=m.get('demo_cmd','')
-mm=re.search(r'\./([A-Za-z0-9_/]+)/?\s*$',cmd.strip())
+mm=re.search(r'\./([A-Za-z0-9_/]+)/?(\s|$)',cmd.strip())
 d='.'
 if mm: d=mm.group(1)
-elif re.search(r'\s\.\s*$',cmd) or cmd.strip().endswith('./'): d='.'
+else:
+    # fall back on the package clause of the demo
+    src=open(sys.argv[2]).read()
+    pk=re.search(r'^package\s+(\w+)',src,re.M).group(1)
+    d={'tcell':'.','tcell_test':'.','terminfo':'terminfo','terminfo_test':'terminfo','views':'views','views_test':'views','encoding':'encoding'}.get(pk,'.')
 print(d)
 PY
 )
 runpat=$(echo "$democmd" | sed -n 's/.*-run[ =]\([^ ]*\).*/\1/p' | tr -d "'\"")
 [ -z "$runpat" ] && runpat=.
+extraenv=""
+echo "$democmd" | grep -q -- "-race" && extraenv="-race"
 cp "$demo" "$wt/$pkgdir/" || exit 2
 demofile="$wt/$pkgdir/$(basename "$demo")"
-echo "== $name: demo $(basename "$demo") in $pkgdir (run $runpat)"
-( cd "$wt" && go test -vet=off -count=1 -run "$runpat" "./$pkgdir/" >/tmp/sv.$$.clean 2>&1 ); cleanrc=$?
+echo "== $name: demo $(basename "$demo") in $pkgdir (run $runpat $extraenv)"
+( cd "$wt" && CGO_ENABLED=$([ -n "$extraenv" ] && echo 1 || echo 0) go test $extraenv -vet=off -count=1 -run "$runpat" "./$pkgdir/" >"$tmpf.clean" 2>&1 ); cleanrc=$?
 ( cd "$wt" && git apply "$src/patch.diff" ) || { echo "RESULT $name patch-does-not-apply"; exit 2; }
-mv "$demofile" /tmp/sv.$$.demo
-( cd "$wt" && go build ./... && GOOS=js GOARCH=wasm go build . && go test -vet=off -count=1 ./... >/tmp/sv.$$.suite 2>&1 ); suiterc=$?
-mv /tmp/sv.$$.demo "$demofile"
-( cd "$wt" && go test -vet=off -count=1 -run "$runpat" "./$pkgdir/" >/tmp/sv.$$.mut 2>&1 ); mutrc=$?
+mv "$demofile" "$tmpf.demo"
+( cd "$wt" && go build ./... && GOOS=js GOARCH=wasm go build . && go test -vet=off -count=1 ./... >"$tmpf.suite" 2>&1 ); suiterc=$?
+mv "$tmpf.demo" "$demofile"
+( cd "$wt" && CGO_ENABLED=$([ -n "$extraenv" ] && echo 1 || echo 0) go test $extraenv -vet=off -count=1 -run "$runpat" "./$pkgdir/" >"$tmpf.mut" 2>&1 ); mutrc=$?
 echo "   clean-tree demo rc=$cleanrc (want 0); suite with patch rc=$suiterc (want 0); demo with patch rc=$mutrc (want !=0)"
 ok=1; [ $cleanrc -ne 0 ] && ok=0; [ $suiterc -ne 0 ] && ok=0; [ $mutrc -eq 0 ] && ok=0
-rm -f /tmp/sv.$$.*
-if [ $ok -ne 1 ]; then echo "RESULT $name NOT-CONFIRMED"; exit 1; fi
-# run the checks against /repo with the patch applied
-cd /repo && git diff --quiet || { echo "/repo not clean"; exit 2; }
-git -C /repo apply "$src/patch.diff" || { echo "RESULT $name patch-does-not-apply-to-repo"; exit 2; }
-caught=""
-for p in C01 C02 C03 C04 C05 C06 C07 C08 C09 C10 C11 C12 C13 C14 C15 C16 C17 C18 C19 C20; do
-  out=$(cd /verif && ./bin/tcellvet -prop $p -tier quick -no-evidence 2>&1)
-  if echo "$out" | grep -q "^VIOLATION"; then
-    caught="$caught $p"
-    echo "$out" | grep "^FINDING" | cut -c1-260 | head -3 | sed "s/^/   [$p] /"
-  fi
-done
-git -C /repo checkout -- .
-echo "RESULT $name CONFIRMED caught-by:${caught:- NONE}"
+if [ $ok -ne 1 ]; then
+  [ $cleanrc -ne 0 ] && tail -15 "$tmpf.clean" | sed 's/^/   clean| /'
+  [ $suiterc -ne 0 ] && tail -15 "$tmpf.suite" | sed 's/^/   suite| /'
+  echo "RESULT $name NOT-CONFIRMED"; exit 1
+fi
+rm -f "$demofile"
+# run the checks against the patched worktree
+unset GOFLAGS
+out=$(cd /verif && CGO_ENABLED=0 ./bin/tcellvet -prop all -tier quick -no-evidence -repo "$wt" 2>&1)
+caught=$(echo "$out" | sed -n 's/^VIOLATION property=\([A-Z0-9]*\).*/\1/p' | tr '\n' ' ')
+echo "$out" | grep "^FINDING" | sed "s#$wt/##g" | cut -c1-300 | head -8 | sed "s/^/   /"
+echo "RESULT $name CONFIRMED caught-by: ${caught:-NONE}"
+if [ -n "$keep" ]; then
+  mkdir -p "$keep"
+  cp "$src/patch.diff" "$keep/patch.diff"
+  cp "$demo" "$keep/"
+  python3 - "$src/meta.json" "$keep/meta.json" "$name" "$caught" "$runpat" "$pkgdir" "$extraenv" <<'PY'
+import json,sys
+m=json.load(open(sys.argv[1]))
+m['id']=sys.argv[3]
+m['breaks_property']=m.get('property')
+m['confirmed']={'clean_tree_demo':'pass','original_suite_with_patch':'pass (go build ./..., GOOS=js GOARCH=wasm go build ., go test -vet=off -count=1 ./...)','demo_with_patch':'fail',
+  'ran':'tools/verify_seed.sh in a scratch git worktree of /repo: go test %s -vet=off -count=1 -run %s ./%s/ (clean, then patched); bin/tcellvet -prop all -tier quick -repo <patched worktree>'%(sys.argv[7],sys.argv[5],sys.argv[6])}
+m['caught_by']=sys.argv[4].split()
+json.dump(m,open(sys.argv[2],'w'),indent=1)
+PY
+fi
